@@ -48,6 +48,12 @@ def check(ck):
     ff = prog.func("jsonclass", "_find_fields")
     fs = prog.func("jsonclass", "_slots_finder")
     cs = q.call_sites(prog, fdump, lambda r, c: q.is_func(r, "jsonclass._find_fields"))
+    if not cs:
+        others = [x for x in q.all_call_sites(prog, lambda r, c: q.is_func(r, "jsonclass._find_fields"), modules=("jsonclass",))
+                  if x[0].fq in common.closure(prog, [fdump])]
+        if others:
+            raise AnalysisError("anchor moved: _find_fields is called from %s (a helper of dump that is not inlined), not from dump"
+                                % ", ".join(sorted(set(q.fn(x[0]) for x in others))))
     ck.require(len(cs) == 1 and prov.origin(gd, cs[0][0], cs[0][1].args[0]) == ("param", "obj"), "C07.2",
                "%s: _find_fields(obj)" % q.fn(fdump), "fields enumerated by _find_fields(obj)",
                "dump does not enumerate the object's fields through _find_fields(obj)", q.loc(fdump, fdump.node))
@@ -80,7 +86,8 @@ def check(ck):
         ck.require(okk, "C07.2", "%s: `%s`" % (q.fn(fl), dump(c)), "setattr(new_obj, key, load(value, classes)) over obj.items()",
                    "fields are not restored as setattr(new_obj, key, load(value, classes)) for every (key, value) of the "
                    "descriptor: %s / %s" % (prov.show(t1), prov.show(t2)[:80]), q.loc(fl, n))
-        ctor_ids = set(m.id for m in gl.live_nodes() for cc in node_calls(m) if isinstance(cc.func, ast.Name) and cc.func.id == "json_class")
+        ctor_ids = set(m.id for m in gl.live_nodes() for cc in node_calls(m) if isinstance(cc.func, ast.Name) and cc.func.id != "load" and (
+            any(isinstance(a, ast.Starred) for a in cc.args) or any(k.arg is None for k in cc.keywords)))
         defs = prov.rd_of(gl).get(n.id, {}).get(dump(c.args[0]), frozenset()) if isinstance(c.args[0], ast.Name) else frozenset()
         new_ok = bool(defs) and set(defs) <= ctor_ids
         ck.require(new_ok, "C07.2", "%s: setattr target" % q.fn(fl), "the object just constructed",
@@ -150,61 +157,35 @@ def check(ck):
                    "jsonrpc.load translates %s" % (prov.show(t0) if t0 else "nothing"), q.loc(fjl, n))
 
     # ---- C07.5 constructor arguments ---------------------------------------------------------------------
-    ctor = []
-    for n in gl.live_nodes():
-        for c in node_calls(n):
-            if isinstance(c.func, ast.Name) and c.func.id == "json_class":
-                ctor.append((n, c))
-    ck.require(len(ctor) == 2, "C07.5", "%s: constructor calls" % q.fn(fl), "two (list / dict arguments)",
-               "expected json_class(*params) and json_class(**params), found %d constructor calls" % len(ctor), q.loc(fl, fl.node))
-    from vlib.flow import Explorer
-    exl = Explorer(gl)
-    alias = {}
-    for m in gl.live_nodes():
-        if m.kind == "stmt" and isinstance(m.ast, ast.Assign) and isinstance(m.ast.targets[0], ast.Name) and isinstance(m.ast.value, ast.Call) \
-                and dump(m.ast.value.func) == "isinstance" and dump(m.ast.value.args[0]) == "params":
-            alias[m.ast.targets[0].id] = m.ast.value
-    for (n, c) in ctor:
-        kinds = set()
-        for st_ in exl.states:
-            if st_[0] != n.id:
-                continue
-            universe = set(["list", "dict", "<other>"])
-            before = exl.parent.get(st_)          # facts holding just before the call (the call itself drops heap facts)
-            for (key, pol) in (before[1] if before is not None else st_[1]):
-                texpr = None
-                if key in alias:
-                    texpr = alias[key]
-                elif key.startswith("isinstance(params,"):
-                    try:
-                        texpr = ast.parse(key).body[0].value
-                    except SyntaxError:
-                        texpr = None
-                if texpr is None:
-                    continue
-                ts = prog.typeset("jsonclass", texpr.args[1])
-                if ts is None:
-                    continue
-                if pol:
-                    universe &= set(ts)
-                else:
-                    universe -= set(ts)
-            kinds.add("list" if universe == set(["list"]) else ("dict" if universe == set(["dict"]) else None))
-        kind = next(iter(kinds)) if len(kinds) == 1 else None
-        star = [a for a in c.args if isinstance(a, ast.Starred)]
-        dstar = [k for k in c.keywords if k.arg is None]
-        if kind == "list":
-            okk = len(star) == 1 and len(c.args) == 1 and not c.keywords and dump(star[0].value) == "params"
-        elif kind == "dict":
-            okk = len(dstar) == 1 and not c.args and len(c.keywords) == 1 and dump(dstar[0].value) == "params"
-        else:
-            okk = False
-        ck.require(okk, "C07.5", "%s: `%s` under isinstance(params, %s)" % (q.fn(fl), dump(c), kind), "arguments applied as given",
-                   "constructor arguments of kind %s are applied as `%s`" % (kind, dump(c)), q.loc(fl, n))
-    pt = prov.origin(gl, ctor[0][0], ast.Name(id="params", ctx=ast.Load())) if ctor else None
-    okk = pt is not None and pt == ("item", ("item", ("param", "obj"), ("const", "__jsonclass__")), ("const", 1))
-    ck.require(okk, "C07.5", "%s: params = obj['__jsonclass__'][1]" % q.fn(fl), "second descriptor element",
-               "constructor arguments are %s, not the second element of the descriptor" % (prov.show(pt) if pt else "?"), q.loc(fl, fl.node))
+    # load() evaluated abstractly (E7) on a descriptor {"__jsonclass__": [name, params]}: one constructor call, which receives
+    # a list's elements positionally in order, or a dictionary's items by keyword; anything else is a TranslationError
+    # raised before any constructor runs
+    a_, b_ = shape.Sym("arg0", pytype=int), shape.Sym("arg1", pytype=str)
+    for cname in ("Cls", "pkg.mod.Cls"):
+        for (label, params, want) in (("[a, b]", lambda: shape.L([a_, b_]), ([a_, b_], {})), ("[]", lambda: shape.L([]), ([], {})),
+                                      ("{'x': a, 'y': b}", lambda: shape.D({"x": a_, "y": b_}), ([], {"x": a_, "y": b_})),
+                                      ("'text'", lambda: shape.K("text"), None), ("5", lambda: shape.K(5), None),
+                                      ("None", lambda: shape.K(None), None)):
+            ev = shape.Evaluator(prog, "jsonclass", lenient=True)
+            res = ev.run(fl, {"obj": shape.D({"__jsonclass__": shape.L([shape.K(cname), params()])}),
+                              "classes": shape.D({"Cls": shape.Opaque("the class")}) if cname == "Cls" else shape.K(None)})
+            calls = [c for c in getattr(ev, "opaque_calls", []) if c[1] == "__call__"]
+            where = "%s[name=%s, params=%s]" % (q.fn(fl), cname, label)
+            if want is None:
+                okk = len(res) >= 1 and all(o[0] == "raise" and o[1] == "TranslationError" for (_d, o) in res) and not calls
+                ck.require(okk, "C07.5", where, "TranslationError, no constructor call",
+                           "constructor arguments %s (neither list nor dictionary) give %s with %d constructor call(s) instead of a "
+                           "TranslationError" % (label, [o[:2] for (_d, o) in res], len(calls)), q.loc(fl, fl.node))
+            else:
+                okk = len(res) == 1 and res[0][1][0] == "return" and len(calls) == 1 and calls[0][2] == want[0] and calls[0][3] == want[1]
+                ck.require(okk, "C07.5", where, "one constructor call with the arguments as given",
+                           "with constructor arguments %s the class is called %s (outcome %s); required: the list's elements "
+                           "positionally in order, or the dictionary's items by keyword" %
+                           (label, ["(*%r, **%r)" % (c[2], c[3]) for c in calls], [o[:2] for (_d, o) in res]), q.loc(fl, fl.node))
+                if okk:
+                    ck.require(isinstance(res[0][1][1], shape.Opaque) and res[0][1][1].label.endswith("()"), "C07.5", where + " result",
+                               "the constructed object is returned", "load returns %r instead of the constructed object" % (res[0][1][1],),
+                               q.loc(fl, fl.node))
     dgd = dominators(gd)
     for fn_, want in (("utils.is_decimal", "[str(obj)]"), ("utils.is_enum", "[obj.value]")):
         region = [m for m in gd.live_nodes() if any(gd.nodes[i].kind == "branch" and gd.nodes[i].polarity and isinstance(gd.nodes[i].test, ast.Call)
